@@ -113,8 +113,39 @@ def run_shard(spec, rep):
         try:
             _judge(rep, case, fc, j, taps, n2, k, Permeance)
             _other_model_same_object(rep, case, fc)
+            if not fc.from_membrane and index % 8 == 0:
+                _explicit_units(rep, case, fc, rng)
         except Exception as e:
             rep.harness_error(f"C02 judge: {e!r}", e)
+
+
+def _explicit_units(rep, case, fc, rng):
+    """explicit permeances handed over in SI or GPU.  The pinned library uses their bare numbers (the unit label of an explicit
+    permeance is ignored); a library that converts them properly is just as acceptable.  The law must hold for BOTH components
+    under ONE of the two readings - anything else (one component converted with the other's molar mass, ...) is a violation."""
+    import copy
+
+    u = rng.choice(["SI", "GPU"])
+    p1k, p2k = fc.p1.value, fc.p2.value
+    q1 = gen.permeance_in_units(p1k, u, fc.mix.first_component)
+    q2 = gen.permeance_in_units(p2k, u, fc.mix.second_component)
+    st, j, taps = call(fc, q1, q2)
+    if st != "ok" or not taps or not all(math.isfinite(v) for v in j):
+        rep.count("explicit_units_call_" + st)
+        return
+    ystar = taps[-1][0].p
+    fits = {}
+    for reading, (a, b) in (("bare numbers", (q1.value, q2.value)), ("converted to kg/(m2 h kPa)", (p1k, p2k))):
+        ok = False
+        for basis in (("weight", "molar") if fc.pp is not None else ("weight",)):
+            ref, pf, perm = ref_fluxes(fc, ystar, a, b, basis)
+            ok = ok or all(abs(j[i] - float(ref[i])) <= 1e-9 * (a, b)[i] * max(abs(float(pf[i])), abs(float(perm[i]))) for i in (0, 1))
+        fits[reading] = ok
+    rep.require("explicit permeances in SI / GPU: the law holds for both components under one reading of the unit", any(fits.values()),
+                dict(case, explicit_units=u, values=[q1.value, q2.value]), {"fluxes": j, "ystar": ystar, "fits": fits})
+    for r, ok in fits.items():
+        if ok:
+            rep.count("explicit_units_reading: " + r)
 
 
 def _other_model_same_object(rep, case, fc):
